@@ -170,7 +170,7 @@ pub fn writer(ctx: &mut Ctx, tag: &str, t: &OwnedTerm) {
 
 pub fn run(ctx: &mut Ctx) {
     boundary(ctx);
-    let n = ctx.n(1500, 60000);
+    let n = ctx.n(1500, 30000);
     let cfg = Cfg::default();
     for _ in 0..n {
         let t = gen_term(&mut ctx.rng, &cfg, 0);
